@@ -27,9 +27,30 @@ def parseReads (s : String) : Option (List (Option Nat)) :=
   if s.isEmpty then some []
   else (s.splitOn ",").mapM (fun t => if t = "-" then some none else t.toNat?.map some)
 
-def runReads (P : Nat) : Unblock.St → List (Option Nat) → List Bytes
-  | _, [] => []
-  | s, n :: ns => let r := Unblock.read P s n; r.1 :: runReads P r.2 ns
+/-- byte-string specs understood by the driver:
+    `hex:<hex>`, `pc:<n>` (position-coded), `blk:<n>` (one-shot blocking of `pc:<n>`),
+    `blkcut:<n>:<m>` (first `m` bytes of `blk:<n>`), `pccut`… -/
+def parseSpec (s : String) : Option Bytes :=
+  match s.splitOn ":" with
+  | ["blk", n] => n.toNat?.map (fun n => Block.blockify P1014 (pc 0 n))
+  | ["blkcut", n, m] =>
+    match n.toNat?, m.toNat? with
+    | some n, some m => some ((Block.blockify P1014 (pc 0 n)).take m)
+    | _, _ => none
+  | _ => parseBytes s
+
+/-- the property leaves one freedom in a blocked file: an optional trailing all-fill block -/
+def canonFile (blocked : Bool) (f : Bytes) : Bytes := if blocked then Block.dropTrailingFill P1014 f else f
+
+def renderRead (r : List Bytes × Vbs.End) : String :=
+  s!"{",".intercalate (r.1.map sig)} {renderEnd r.2}"
+
+/-- for every cut offset 0..len: number of records delivered and the ending -/
+def cutsSummary (blocked : Bool) (ml : Nat) (file : Bytes) (step : Nat) : String :=
+  let ns := (List.range (file.length / step + 1)).map (· * step)
+  ";".intercalate (ns.map (fun n =>
+    let r := vbsBytesToList P1014 ml blocked (file.take n)
+    s!"{r.1.length}:{sig (r.1.flatten)}:{renderEnd r.2}"))
 
 def process (line : String) : String :=
   match line.splitOn "\t" with
@@ -41,18 +62,18 @@ def process (line : String) : String :=
       s!"ok {sig out} {sig (Block.dropTrailingFill P1014 out)}"
     | none => "bad-op"
   | ["b1014.oneshot", spec] =>
-    match parseBytes spec with
+    match parseSpec spec with
     | some d => let out := Block.blockify P1014 d; s!"ok {sig out} {sig (Block.dropTrailingFill P1014 out)}"
     | none => "bad-op"
   | ["unblock", spec] =>
-    match parseBytes spec with
+    match parseSpec spec with
     | some f => match Block.unblock P1014 f with
       | some d => s!"ok {sig d}"
       | none => "err"
     | none => "bad-op"
   | ["u1014.reads", spec, reads] =>
-    match parseBytes spec, parseReads reads with
-    | some f, some ns => "ok " ++ ",".intercalate ((runReads P1014 ⟨f, []⟩ ns).map sig)
+    match parseSpec spec, parseReads reads with
+    | some f, some ns => "ok " ++ ",".intercalate ((Unblock.runReads P1014 ⟨f, []⟩ ns).map sig)
     | _, _ => "bad-op"
   | ["vbs.write", b, lens, fins] =>
     match parseNatList lens, parseFins fins with
@@ -68,17 +89,36 @@ def process (line : String) : String :=
       s!"ok {toHex st.file.data} {st.file.pos}"
     | _, _ => "bad-op"
   | ["vbs.read", b, maxLen, spec] =>
-    match parseBytes spec, maxLen.toNat? with
+    match parseSpec spec, maxLen.toNat? with
     | some f, some ml =>
       let r := vbsBytesToList P1014 ml (b == "1") f
       s!"ok {",".intercalate (r.1.map sig)} {renderEnd r.2}"
     | _, _ => "bad-op"
+  | ["vbs.roundtrip", b, maxLen, lens] =>
+    match parseNatList lens, maxLen.toNat? with
+    | some ls, some ml =>
+      let f := Writer.listToBytes P1014 (b == "1") (pcRecords ls)
+      s!"ok {sig (canonFile (b == "1") f)} {renderRead (vbsBytesToList P1014 ml (b == "1") f)}"
+    | _, _ => "bad-op"
+  | ["vbs.roundtriphex", b, maxLen, recs] =>
+    let rs := if recs.isEmpty then some [] else (recs.splitOn ",").mapM parseHex
+    match rs, maxLen.toNat? with
+    | some rs, some ml =>
+      let f := Writer.listToBytes P1014 (b == "1") rs
+      s!"ok {sig (canonFile (b == "1") f)} {renderRead (vbsBytesToList P1014 ml (b == "1") f)}"
+    | _, _ => "bad-op"
+  | ["vbs.cuts", b, maxLen, lens, step] =>
+    match parseNatList lens, maxLen.toNat?, step.toNat? with
+    | some ls, some ml, some st =>
+      let f := Writer.listToBytes P1014 (b == "1") (pcRecords ls)
+      s!"ok {cutsSummary (b == "1") ml f (max st 1)}"
+    | _, _, _ => "bad-op"
   | _ => "bad-op"
 
 partial def loop (hin hout : IO.FS.Stream) : IO Unit := do
   let line ← hin.getLine
   if line.isEmpty then return ()
-  let l := (line.dropRightWhile (fun c => c = '\n' || c = '\r'))
+  let l := ((line.dropEndWhile (fun c => c = '\n' || c = '\r')).toString)
   hout.putStrLn (process l)
   loop hin hout
 
